@@ -443,6 +443,41 @@ def call_impl(case):
     return out
 
 
+def reemit_oracle(case):
+    """ "every node of each scaling grid equals J(node) / J(base)" holds for EVERY configuration the object emits, also the
+    second one, asked for after the caller rescaled / clipped the grid arrays of the first one in place (a normalisation
+    for a plot): the grid is deterministic (no lens-model errors enter it), so the second emission must carry the values of
+    the first as it was emitted (those are held against J(node) / J(base) by the main oracle).  Only the grid arrays are
+    edited: axes and name lists are left alone (the property says nothing about callers editing those)."""
+    import copy
+    rec = Recorder(Engine(case["salt"], case["n"]))
+    np.random.seed(case["np_seed"])
+    with patched(rec, KPOLY), np.errstate(all="ignore"):
+        try:
+            obj = build(case)
+            c1 = obj.hierarchy_configuration(num_sample_model=case["N"])
+        except Exception:  # noqa
+            return []
+        keep = copy.deepcopy(c1.get("j_kin_scaling_grid_list"))
+        for g in c1.get("j_kin_scaling_grid_list") or []:
+            if isinstance(g, np.ndarray) and g.flags.writeable:
+                g *= 1.05
+                np.clip(g, 0.9, 1.1, out=g)
+        try:
+            c2 = obj.hierarchy_configuration(num_sample_model=case["N"])
+        except Exception as e:  # noqa
+            return [("reemit:raised", "a second hierarchy_configuration() on the same object raised %s" % err_enum(e))]
+    g2 = c2.get("j_kin_scaling_grid_list")
+    ok = isinstance(g2, (list, tuple)) and isinstance(keep, (list, tuple)) and len(g2) == len(keep) and all(
+        np.shape(a) == np.shape(b) and np.allclose(np.asarray(a, dtype=float), np.asarray(b, dtype=float), rtol=1e-12, atol=0, equal_nan=True)
+        for a, b in zip(keep, g2))
+    if not ok:
+        return [("reemit:j_kin_scaling_grid_list", "the scaling grid of the second configuration emitted by the same object is not the grid of the first as "
+                 "it was emitted (the caller rescaled the first one's arrays in place in between): first %s; second %s"
+                 % (str(keep)[:120], str(g2)[:120]))]
+    return []
+
+
 # ----------------------------------------------------------------------------- specification (oracle)
 def rel(a, b, tol=TOL):
     return close(a, b, tol)
@@ -1046,6 +1081,12 @@ def run(ctx, res):
     for c in cases:
         r = call_impl(c)
         fails, info = oracle(c, r)
+        if "err" not in r and res.evaluations % 4 == 0:
+            try:
+                fails = list(fails) + reemit_oracle(c)
+                res.count("second_emission_after_edit")
+            except Exception as e:  # noqa
+                res.notes.append("second-emission check failed to run: %r" % (e,))
         res.evaluations += 1
         res.count("class=" + c["kind"])
         res.count("ani=" + c["ani"])
